@@ -11,6 +11,7 @@ Decided
       C'[i, j, 0] = max(C[i, j, 0], C[j, i, 0]); hence 2*half + 1 bins, C[i,j,k] = C[j,i,-k], positive lags unchanged
   U2  firing_rate = (counts outer counts) x bin / duration with counts padded by zeros up to the number of requested ids
   +   window in bins = 2 * floor(window / (2 bin)) + 1: a rounded or ceiled ratio is a recognised wrong form
+  +   outside the index-map domain one idiom is still judged: values gathered along np.triu_indices stored along np.tril_indices (or the reverse)
 Not decided: the pair count itself (the shrinking-mask loop is value level).
 """
 import ast
@@ -208,6 +209,31 @@ def a1_symmetrize(ctx):
         ctx.violated('C15.A1', fi, 'slice bound -0', str(e))
         return
     except ValueError as e:
+        # outside the domain; one idiom is still judged: values gathered along one triangle (np.triu_indices) stored along the other (np.tril_indices). Both
+        # enumerate row by row, so the k-th upper pair (i, j) and the k-th lower pair are transposes of each other only up to 3 clusters
+        tri_names = {}
+        for a_ in fi.nodes(ast.Assign):
+            if isinstance(a_.value, ast.Call) and dotted(a_.value.func) in ('np.triu_indices', 'np.tril_indices', 'np.triu_indices_from', 'np.tril_indices_from') and isinstance(a_.targets[0], ast.Name):
+                tri_names[a_.targets[0].id] = 'upper' if 'triu' in dotted(a_.value.func) else 'lower'
+
+        def side_of(e_):
+            if isinstance(e_, ast.Name):
+                return tri_names.get(e_.id)
+            if isinstance(e_, ast.Call) and (dotted(e_.func) or '').startswith(('np.triu_indices', 'np.tril_indices')):
+                return 'upper' if 'triu' in dotted(e_.func) else 'lower'
+            return None
+        crossed = None
+        for a_ in fi.nodes(ast.Assign):
+            t_ = a_.targets[0]
+            if isinstance(t_, ast.Subscript) and side_of(t_.slice) and not (isinstance(t_.value, ast.Attribute) and t_.value.attr == 'T'):
+                vx = fi.expand(a_.value)
+                sides = {side_of(n_.slice) for n_ in ast.walk(vx) if isinstance(n_, ast.Subscript) and side_of(n_.slice)}
+                if sides and side_of(t_.slice) not in sides:
+                    crossed = a_
+        if crossed is not None:
+            ctx.violated('C15.A1', fi, crossed, 'values gathered along one triangle of the zero-lag plane are stored along the other one (`%s`): np.triu_indices and np.tril_indices both enumerate row '
+                         'by row, so from 4 clusters on the k-th pairs are not transposes of each other and maxima land on the wrong (j, i)' % unparse(crossed)[:60])
+            return
         ctx.undecided('C15.A1', fi, 'construct outside the index-map domain: %s' % e)
         return
     # specification
